@@ -53,4 +53,116 @@ theorem qname_prefixColon (lead pre loc : List Nat) (hl : 58 ∉ lead) (hp : 58 
     simp
   rw [this]; exact hc
 
+
+/-! ## The cache as a bounded least-recently-used map (`createMatchPattern` + `addToXPathCache`) -/
+
+/-- one entry of `m_matchPatternCache`: key (the pattern string), the compiled pattern, the clock of its last use -/
+structure CacheEntry (α : Type) where
+  key : List Nat
+  value : α
+  clock : Nat
+
+/-- the `while` loop of `addToXPathCache`: position of the first entry whose clock is the lowest one below `lowest`
+(`none` = no entry is older than the current clock: the code's `earliest` stays `end()`) -/
+def victimFrom {α : Type} : List (CacheEntry α) → Nat → Nat → Option Nat → Option Nat
+  | [], _, _, best => best
+  | e :: rest, i, lowest, best =>
+    if e.clock < lowest then victimFrom rest (i + 1) e.clock (some i) else victimFrom rest (i + 1) lowest best
+
+/-- `addToXPathCache(pattern, theXPath)` at clock `now` -/
+def addToCache {α : Type} (act : EvictionAction) (cap now : Nat) (c : List (CacheEntry α)) (key : List Nat) (v : α) :
+    List (CacheEntry α) :=
+  if c.length = cap then
+    match victimFrom c 0 now none with
+    | none => c ++ [⟨key, v, now⟩]             -- not reachable while the clock advances between two fills
+    | some i =>
+      match act with
+      | .eraseVictimInsertNewKey => c.eraseIdx i ++ [⟨key, v, now⟩]
+      | .overwriteVictimValueInPlace => c.modify i fun e => { e with value := v, clock := now }
+  else c ++ [⟨key, v, now⟩]
+
+/-- `createMatchPattern(str, resolver)` at clock `now`; `compile` = `m_xsltProcessor->createMatchPattern` (for a string
+that is served from the cache it does not depend on the resolver: `pattern_cache_never_serves_prefixed`) -/
+def cacheLookup {α : Type} (compile : List Nat → α) (act : EvictionAction) (cap now : Nat) (c : List (CacheEntry α))
+    (key : List Nat) : α × List (CacheEntry α) :=
+  if servedFromCache key = false then (compile key, c)
+  else
+    match c.findIdx? (fun e => e.key == key) with
+    | some i => ((c.getD i ⟨key, compile key, 0⟩).value, c.modify i fun e => { e with clock := now })
+    | none => (compile key, addToCache act cap now c key (compile key))
+
+/-- a history of lookups (the clock advances by one per lookup); the patterns handed out -/
+def runLookups {α : Type} (compile : List Nat → α) (act : EvictionAction) (cap : Nat) :
+    List (CacheEntry α) → Nat → List (List Nat) → List α
+  | _, _, [] => []
+  | c, now, k :: rest =>
+    let r := cacheLookup compile act cap now c k
+    r.1 :: runLookups compile act cap r.2 (now + 1) rest
+
+/-- every cached pattern is the one its key compiles to -/
+def CacheInv {α : Type} (compile : List Nat → α) (c : List (CacheEntry α)) : Prop := ∀ e ∈ c, e.value = compile e.key
+
+theorem cacheInv_modify_clock {α : Type} (compile : List Nat → α) (c : List (CacheEntry α)) (i now : Nat)
+    (h : CacheInv compile c) : CacheInv compile (c.modify i fun e => { e with clock := now }) := by
+  intro e he
+  rw [List.mem_iff_getElem] at he
+  obtain ⟨j, hj, rfl⟩ := he
+  rw [List.getElem_modify]
+  have hj' : j < c.length := by simpa using hj
+  split
+  · exact h c[j] (List.getElem_mem hj')
+  · exact h _ (List.getElem_mem hj')
+
+theorem cacheLookup_spec {α : Type} (compile : List Nat → α) (cap now : Nat) (c : List (CacheEntry α)) (key : List Nat)
+    (h : CacheInv compile c) :
+    (cacheLookup compile .eraseVictimInsertNewKey cap now c key).1 = compile key ∧
+    CacheInv compile (cacheLookup compile .eraseVictimInsertNewKey cap now c key).2 := by
+  unfold cacheLookup
+  split
+  · exact ⟨rfl, h⟩
+  · cases hf : c.findIdx? (fun e => e.key == key) with
+    | some i =>
+      simp only
+      have hi := List.findIdx?_eq_some_iff_getElem.mp hf
+      obtain ⟨hlt, hk, _⟩ := hi
+      refine ⟨?_, cacheInv_modify_clock compile c i now h⟩
+      have hget : c.getD i ⟨key, compile key, 0⟩ = c[i] := by simp [List.getD, hlt]
+      rw [hget, h _ (List.getElem_mem hlt)]
+      have : c[i].key = key := by simpa using hk
+      rw [this]
+    | none =>
+      refine ⟨rfl, ?_⟩
+      show CacheInv compile (addToCache .eraseVictimInsertNewKey cap now c key (compile key))
+      have hnew : CacheInv compile [⟨key, compile key, now⟩] := by
+        intro e he
+        simp only [List.mem_singleton] at he
+        subst he; rfl
+      unfold addToCache
+      split
+      · cases victimFrom c 0 now none with
+        | none =>
+          intro e he
+          rcases List.mem_append.mp he with h1 | h1
+          · exact h e h1
+          · exact hnew e h1
+        | some i =>
+          intro e he
+          rcases List.mem_append.mp he with h1 | h1
+          · exact h e (List.mem_of_mem_eraseIdx h1)
+          · exact hnew e h1
+      · intro e he
+        rcases List.mem_append.mp he with h1 | h1
+        · exact h e h1
+        · exact hnew e h1
+
+theorem runLookups_spec {α : Type} (compile : List Nat → α) (cap : Nat) : ∀ (keys : List (List Nat)) (c : List (CacheEntry α)) (now : Nat),
+    CacheInv compile c → runLookups compile .eraseVictimInsertNewKey cap c now keys = keys.map compile := by
+  intro keys
+  induction keys with
+  | nil => intro _ _ _; rfl
+  | cons k rest ih =>
+    intro c now h
+    have hs := cacheLookup_spec compile cap now c k h
+    simp only [runLookups, List.map_cons, hs.1, ih _ _ hs.2]
+
 end XalanModel.C17
